@@ -61,6 +61,14 @@ var propInfo = map[string]struct {
 			"NOT covered: re-association of + and * chains (tryReorderBinaryOp, isBinaryOpExprAllValue), folding of constant function calls (tryOptimizeFunctionCall: assumed thin contract), and the composition over the whole tree (in-place mutation of a tree needs an ownership argument outside this contract language)",
 			"floats are uninterpreted: no claim about IEEE rounding of re-associated chains (outside the property by its own quantifier)",
 		}},
+	"C14": {"proof",
+		"The type checker (checker.go) is under contract. (1) Operand rules: a nil result of checkWithAndOr / checkWithMath / checkWithCompares / checkWithIn / checkWithBetween / NotExpr.Check / ListExpr.Check / FieldAccessExpr.Check / FieldExpr.Check guarantees the documented rule for that operator (both operands Boolean; both numeric or `+` on two texts, literal division by zero refused; equal types, ordered comparisons on numbers or text, ^= ~= on text; IN elements of the left operand's type or a list-valued call; BETWEEN on text or numbers with two bounds of the same type; ! on a Boolean; lists homogeneous and non-empty; key / value refused where the statement form forbids them), stated over the static result type rtype of the operands. (2) Wherever the fault sits: a nil result of any Check implies (ghost mark chk) that every operand, list item, argument and field-access operand below it was itself checked - proved for BinaryOpExpr, NotExpr, ListExpr, FieldAccessExpr, FunctionCallExpr against the interface contract of Expression.Check, with the in-place alias rewriting (a name replaced by a reference to the select field it denotes) modelled exactly. (3) Check only ever returns SyntaxError values and touches no storage (frames).",
+		[]string{
+			"KNOWN FINDING D13 (not repaired, the pinned tests require it): FunctionCallExpr.Check does not look the function up, so unknown functions and wrong argument counts are accepted at build time",
+			"A-RTYPE: the static result type of an expression is treated as a function of the expression object; the checker asks for an operand's type only after everything below it has been checked and rewritten",
+			"NOT covered: the converse (every statement the rules allow is accepted and never fails with an operand-type error at execution), the statement-level keyword restrictions in parser.go (parsePut / parseRemove / parseDelete set the CheckCtx flags), ReturnType implementations (rtype is the specification of their results; they are checked against it only for the literal node kinds), and that BuildPlan runs the checker before any storage call (C13 covers the storage side)",
+			"GetNamedExpr has a thin assumed contract (a found field expression is non-nil)",
+		}},
 	"C15": {"proof",
 		"Precedence climbing, proved on the real parser code (parseExpr, parseBinaryExpr, parseUnaryExpr, parsePrimaryExpr, parseOperand, parseFuncCall, parseFieldAccess, parseList, parseBetween, tokPrec, expect, next, BuildOp, Token.Precedence): (1) Token.Precedence is exactly the documented table (| or = 1 < & and = 2 < comparisons, in, between = 3 < + - = 4 < * / = 5, everything else lowest) and BuildOp maps each documented spelling to its operator code; (2) every BinaryOpExpr node the parser builds, for every token sequence, has a left operand whose level is at least the operator's documented strength and a right operand whose level is strictly greater (ghost level: 6 for operands / unary / call / index / parenthesised / list expressions, the operator's strength for a binary node) - which is 'binds by documented strength, left-associatively, parentheses overriding'; (3) parseBinaryExpr(prec) stops exactly in front of an operator weaker than prec, BETWEEN's bounds bind tighter than the comparison level so its `and` is not taken for the conjunction, and the strength recorded in the tree (by operator code) agrees with the strength used while climbing (by token text).",
 		[]string{
